@@ -580,6 +580,48 @@ Theorem C03_bodies_written_linked : forall (l : list R) (o : S4.R3) (b : V4.M3 R
      W ARB (flat V) descr (arb_facets (firstn (arb_nvert descr) V) (arb_facet_lists descr))).
 Proof. exact written_linked_family. Qed.
 
+(* abbreviated matrices: what C04 proves about normalize_matrix and adjust_matrix
+   composes to the card level (tr_card), e.g. for a card with two rows given *)
+Theorem C03_abbreviated_card_linked : forall (o : S4.R3) (pat : V4.M3 (option R)) (b : V4.M3 R),
+  M4.normalize_matrix RS (V4.mlist pat) = M4.Ok (V4.mlist b) ->
+  S4.rows_orthonormal b -> T4V.C04.ProofsMatrix.clip_ok_m b ->
+  M4.tr_card RS false (map Some (V4.vlist o) ++ V4.mlist pat) = M4.Ok (V4.vlist o ++ V4.mlist b).
+Proof. exact abbreviated_card. Qed.
+
+Theorem C03_six_entry_card_linked : forall (i : nat) (o r0 r1 : S4.R3),
+  (i < 3)%nat -> S4.norm2 r0 = 1 -> S4.norm2 r1 = 1 -> S4.dot r0 r1 = 0 ->
+  let pat := M4.place3 i T4V.C04.ProofsMatrix.none3 (T4V.C04.ProofsMatrix.somev r0)
+                       (T4V.C04.ProofsMatrix.somev r1) in
+  exists b, S4.rotation b /\ S4.agrees pat b /\
+    (T4V.C04.ProofsMatrix.clip_ok_m b -> card_gives (V4.vlist o ++ V4.mlist b) o b).
+Proof. exact six_entry_card. Qed.
+
+(* TRCL=n: the cell is moved by the transformation of card n (C04_inline_number) *)
+Theorem C03_trcl_by_number_linked : forall (l : list R) (o : S4.R3) (b : V4.M3 R) star (n : R)
+    trs trid,
+  card_gives l o b -> M4.lookup trid trs = M4.Ok l ->
+  M4.parse_trcl RS star [n] trs trid = M4.Ok l.
+Proof. exact trcl_by_number_linked. Qed.
+
+(* the whole property text, the transformation read from a card *)
+Theorem C03_expand_macro_den_written_linked : forall (l : list R) (o : S4.R3) (b : V4.M3 R)
+    (bd : body) (p : list R) (d : list N) (fs : list (pt -> R)),
+  card_gives l o b -> fs <> [] ->
+  (exists es, body_parts RS bd p d = Ok es /\ Forall entry_wf es /\ Forall2 same_facet es fs) ->
+  forall ts, body_t4 RS (transf_of_list l) bd p d = Ok ts ->
+  forall (ns : list Z) (fv : Z -> R) (q : pt) (new_key n : Z),
+  numbered_t4 fv q ts ns ->
+  ((n < 0)%Z -> exists t k, expand new_key n None (ids_of_t4 ts ns) = Ok (t, k) /\
+                            (den fv t <-> inside_of fs (aux_c04 o b q))) /\
+  ((0 < n)%Z -> exists t k, expand new_key n None (ids_of_t4 ts ns) = Ok (t, k) /\
+                            (den fv t <-> outside_of fs (aux_c04 o b q))) /\
+  (forall k f, nth_error fs k = Some f -> n <> 0%Z ->
+     exists t, expand new_key n (Some (S k)) (ids_of_t4 ts ns) = Ok (t, new_key) /\
+               (den fv t <-> if (0 <? n)%Z then 0 < f (aux_c04 o b q) else f (aux_c04 o b q) < 0)) /\
+  (forall k, (List.length fs < k)%nat ->
+     expand new_key n (Some k) (ids_of_t4 ts ns) = Err ECellConv).
+Proof. exact reference_written_linked. Qed.
+
 (* ---------------- non-vacuity ---------------- *)
 (* the left-handed wedge of DESIGN 8 #20 (a, b swapped) and a left-handed box
    satisfy the hypotheses; so do right-handed ones *)
@@ -646,7 +688,14 @@ Print Assumptions C03_family_references.
 
 (* transformation taken from a well-formed TR card / inline transformation (C04) *)
 Theorem C03_family_linked :
-  ltac:(let t := type of (conj C03_card_transformation_linked (conj C03_written_linked C03_bodies_written_linked)) in exact t).
-Proof. exact (conj C03_card_transformation_linked (conj C03_written_linked C03_bodies_written_linked)). Qed.
+  ltac:(let t := type of (conj C03_card_transformation_linked (conj C03_written_linked (conj C03_bodies_written_linked (conj C03_abbreviated_card_linked (conj C03_six_entry_card_linked (conj C03_trcl_by_number_linked C03_expand_macro_den_written_linked)))))) in exact t).
+Proof. exact (conj C03_card_transformation_linked (conj C03_written_linked (conj C03_bodies_written_linked (conj C03_abbreviated_card_linked (conj C03_six_entry_card_linked (conj C03_trcl_by_number_linked C03_expand_macro_den_written_linked)))))). Qed.
 Print Assumptions C03_family_linked.
 
+
+(* a card satisfying card_gives:  TR  1 -2 0.5   0.6 0.8 0  -0.8 0.6 0  0 0 1 *)
+Example C03_example_card :
+  let o := V4.mkV 1 (-2) (1 / 2) in
+  let b := V4.mkV (V4.mkV (3 / 5) (4 / 5) 0) (V4.mkV (- 4 / 5) (3 / 5) 0) (V4.mkV 0 0 1) in
+  card_gives (V4.vlist o ++ V4.mlist b) o b.
+Proof. exact card_gives_example. Qed.
